@@ -89,7 +89,7 @@ def _dom_design(job):
     from .. import design_replay
     cfg, evs = job
     top, sigs = design_replay.build(cfg)
-    regs = ("r1", "r2", "r3", "r4", "mr", "mt")          # mw is a memory row: not a port
+    regs = ("r1", "r2", "r3", "r4", "r5", "mr", "mt")          # mw is a memory row: not a port
     ins = {s.name: s for k, s in sigs.items() if k not in regs + ("mw",)}
     outs = {sigs[k].name: sigs[k] for k in regs}
     events = []
